@@ -32,17 +32,17 @@ CHECKS = {
         "design_ref": "DESIGN.md section 8 / C07",
     },
     "C04": {
-        "technique": "Lean 4 model of the grammar visitor's decoders (repeat bounds, num-val, char-val flag, defined-as) with theorems + differential: generated ABNF ASTs rendered with random layout, compiled through 7 routes, object graph compared with the AST's denotation",
-        "text": "Decoder lemmas are proved for all digit strings / trees in the Lean model; that the reader's chosen tree abstracts to the AST it was rendered from (unambiguity modulo layout) is validated differentially, not proved.",
+        "technique": "Lean 4 model of the WHOLE compiler (model engine on the reader's table regenerated from /repo + model of the three grammar visitors as a structural recursion over the parse tree) with theorems (a rule text is rejected with ParseError exactly when it is not derivable from `rule`; layout children never reach the compiled structure; decoders of repeat bounds / num-val / char-val / defined-as) + correspondence of that model with Rule.create on generated, corrupted, boundary and all bundled rule texts + generated ABNF ASTs rendered with random layout, compiled through 7 routes, object graph compared with the AST's denotation, shared core / reader rules snapshotted around every compile",
+        "text": "C04.create_rejects_iff_not_derivable, layout_children_ignored and the decoder theorems are proved for all texts / trees in the Lean model; the model is tied to the code by comparing, text by text, the compiled structure (or the exception class) of Rule.create with the model's; that the reader's chosen tree abstracts to the AST a text was rendered from (unambiguity of ABNF modulo layout) is validated differentially, not proved.",
         "design_ref": "DESIGN.md section 8 / C04",
     },
     "C10": {
-        "technique": "Lean 4 proof (frame theorem over a registry state machine: operations through class A never change what another class resolves or its rule objects) + definition histories in fresh subprocesses with before/after behaviour snapshots",
+        "technique": "Lean 4 proof (frame theorem over a registry state machine: operations through class A never change what another class resolves or its rule objects) + STEP-BY-STEP correspondence of that state machine with the real registry (random operation sequences over base class, reader class, subclasses and a derived subclass; returned object, whole map, every object's owner / name / definition compared after every operation) + definition histories in fresh subprocesses with before/after behaviour snapshots",
         "text": "Registry model theorems (lookup idempotent, case-insensitive, own-or-core resolution, isolation frame) for all operation sequences; tied to the code by random definition histories (incl. core / meta-grammar name collisions) in fresh subprocesses.",
         "design_ref": "DESIGN.md section 8 / C10",
     },
     "C12": {
-        "technique": "Lean 4 proof: termination with an explicit recursion-depth bound for every grammar with a well-formedness certificate (C12.terminates, incl. nullable elements under *), GrammarError only from undefined rules + differential on arbitrary Unicode incl. undefined rules; corrupted rule texts vs the reader model with registry snapshots; work-growth probe with diagnosis",
+        "technique": "Lean 4 proof: termination with an explicit recursion-depth bound for every grammar with a well-formedness certificate (C12.terminates, incl. nullable elements under *), GrammarError only from undefined rules, and - over the model of loading (reader's regenerated table + visitors + registry) - a text that is not a derivable rule / rulelist gets ParseError and leaves the registry unchanged (C12.create_invalid_defines_nothing, load_invalid_defines_nothing) + differential on arbitrary Unicode incl. undefined rules; corrupted rule texts vs the reader model with registry snapshots; work-growth probe with diagnosis",
         "text": "Termination and outcome classes are theorems about the model; tie: outcome classes on generated grammars/inputs (any other exception class is a failing input by construction), load atomicity on corrupted texts. The polynomial work bound is NOT a theorem and is false of the code (open known finding F14, re-confirmed on every run).",
         "design_ref": "DESIGN.md section 8 / C12",
     },
@@ -82,12 +82,12 @@ CHECKS = {
         "design_ref": "DESIGN.md section 8 / C05",
     },
     "C06": {
-        "technique": "Lean 4 reference table of Appendix B.1 (Abnf/Ref.lean) + exhaustive sweep of all 1,114,112 code points for the 14 single-character rules from the base class and a fresh subclass; CRLF/LWSP against the engine model on the reference grammar on all short strings",
-        "text": "Exhaustive over the whole code point space for the single-character rules (a finite domain enumerated completely), compared with the B.1 intervals typed from the RFC; sequences for CRLF and LWSP compared with the reference grammar on all strings up to a length bound.",
+        "technique": "Lean 4 proof over the core table REGENERATED from /repo: each of the 14 single-character rules matches exactly the B.1 code points (for all natural numbers), and all 16 core rules, CRLF and LWSP included, are language-equal to the B.1 grammar typed in Abnf/Ref.lean (verified inclusion checker, both directions, kernel-evaluated); the engine on that table lists exactly those ends + exhaustive sweep of all 1,114,112 code points for the 14 single-character rules from the base class and a fresh subclass, CRLF/LWSP on all short strings, after a pollution prelude",
+        "text": "C06.core_exact, core_equiv_rfc, core_engine_exact_wrt_rfc over regenerated data; tie: exhaustive over the whole code point space for the single-character rules (a finite domain enumerated completely) and all strings up to a length bound for CRLF / LWSP, as seen from the base class and from fresh subclasses after other grammars redefined / extended core names.",
         "design_ref": "DESIGN.md section 8 / C06",
     },
     "C08": {
-        "technique": "Lean 4 proof (cached engine lparseC refines the cache-free engine for every cache state whose entries are correct, any limit, any eviction) + scripted-history differential (warm vs cold unlimited twin vs cache-free model)",
+        "technique": "Lean 4 proof (cached engine lparseC refines the cache-free engine for every cache state whose entries are correct, any limit, any eviction; with the termination theorem: unconditional for every well-formed grammar and the explicit fuel) + scripted-history differential (warm vs cold unlimited twin vs cache-free model)",
         "text": "Cache transparency theorem over the model with an abstract cache (any implementation of lookup/store that only returns stored values); tie: random request histories with clears and limit changes on live caches vs a cold unlimited twin and the cache-free model.",
         "design_ref": "DESIGN.md section 8 / C08",
     },
